@@ -22,7 +22,7 @@ def replay(d):
     from t2incons import t2incon, t2blockincon
     sh = d['shape']
     inc = t2incon()
-    if sh['perm']: inc.simulator = 'TOUGHREACT'
+    if sh['perm'] or sh.get('toughreact'): inc.simulator = 'TOUGHREACT'
     for b in d['blocks']:
         perm = None if b['permeability'] is None else np.array(num(b['permeability']))
         inc[b['name']] = t2blockincon(num(b['variables']), b['name'], num(b['porosity']), perm, b['nseq'], b['nadd'])
